@@ -29,6 +29,10 @@ from rustscan import (AnchorLost, blank_comments, find_const, find_fn, find_impl
                       line_of, match_close, skip_literal)
 
 
+# functions found to need contract-only mode in a previous pass of the same run (id -> reason)
+DEGRADED_IDS = {}
+
+
 class GenError(Exception):
     pass
 
@@ -297,76 +301,7 @@ def apply_rules(card, sig, body, log):
     return sig, body
 
 
-def emit_fn(card, repo, out, info, twin=False, assumed_here=False):
-    src, clean = load(repo, card.file)
-    parts = card.path.split('::')
-    tname = parts[0] if len(parts) == 2 else None
-    fname = parts[-1]
-    nth = int(card.opts.get('nth', 0))
-    if 'implre' in card.opts:
-        s0, b0, e0 = find_impl(clean, card.opts['implre'].strip('/'))
-        sub = clean[b0:e0 + 1]
-        m = re.search(R'(?:pub(?:\([a-z:_ ]+\))?\s+)?(?:const\s+)?(?:async\s+)?fn\s+%s\b' % re.escape(fname), sub)
-        if not m:
-            raise AnchorLost('fn %s not in impl %s' % (fname, card.opts['implre']))
-        start = b0 + m.start()
-        from rustscan import find_block_start
-        bopen = find_block_start(clean, b0 + m.end())
-        bclose = match_close(clean, bopen)
-    else:
-        start, bopen, bclose = find_fn(clean, tname, fname, nth)
-    raw_item = src[start:bclose + 1]
-    sig = strip_attrs_and_vis(clean[start:bopen]).strip()
-    sig = re.sub(r'^const\s+', '', sig)
-    body = clean[bopen:bclose + 1]
-    R.reset_counters()
-    log = []
-    sig, body = apply_rules(card, sig, body, log)
-    body = squeeze(body)
-    if card.opts.get('awaitinv'):
-        body, n_aw = insert_await_asserts(body, card.opts['awaitinv'], card.opts.get('awaitskip'))
-        log.append({'rule': 'X12', 'match': '%d await points: assert(%s)' % (n_aw, card.opts['awaitinv'])})
-    if card.opts.get('rename'):
-        sig = re.sub(r'\bfn\s+%s\b' % re.escape(fname), 'fn ' + card.opts['rename'], sig, count=1)
-        log.append({'rule': 'PROBE', 'match': 'emitted as %s (uncalled copy carrying a property-level clause)' % card.opts['rename']})
-    if card.ret:
-        sig, ok = name_return(sig, card.ret)
-        if not ok:
-            raise GenError('%s: ret= given but fn has no return type' % card.id)
-    rec = {
-        'id': card.id, 'file': card.file, 'path': card.path, 'mode': card.mode,
-        'src_line_start': line_of(src, start), 'src_line_end': line_of(src, bclose),
-        'src_sha256': hashlib.sha256(raw_item.encode()).hexdigest(),
-        'rules_applied': log, 'tags': card.tags,
-        'clauses': [], 'loops': sorted(card.loops), 'hints': [h[0] for h in card.hints],
-    }
-    fid = card.id
-    if card.mode == 'assumed' or assumed_here:
-        out.add('#[verifier::external_body]', {'fn': fid, 'part': 'attr'})
-    if not twin and 'nospinoff' not in card.opts:
-        out.add('#[verifier::spinoff_prover]', {'fn': fid, 'part': 'attr'})
-    if 'nodecreases' in card.opts:
-        out.add('#[verifier::exec_allows_no_decreases_clause]', {'fn': fid, 'part': 'attr'})
-    if card.opts.get('rlimit') and not twin:
-        out.add('#[verifier::rlimit(%s)]' % card.opts['rlimit'], {'fn': fid, 'part': 'attr'})
-    out.add(sig, {'fn': fid, 'part': 'sig'})
-    if card.requires:
-        out.add('    requires', {'fn': fid, 'part': 'sig'})
-        for c in card.requires:
-            out.add(c.text.rstrip().rstrip(',') + ',', {'fn': fid, 'part': 'requires', 'clause': c.name, 'tags': c.tags})
-            rec['clauses'].append({'kind': 'requires', 'name': c.name, 'tags': c.tags, 'text': ' '.join(c.text.split())})
-    if card.ensures:
-        out.add('    ensures', {'fn': fid, 'part': 'sig'})
-        for c in card.ensures:
-            out.add(c.text.rstrip().rstrip(',') + ',', {'fn': fid, 'part': 'ensures', 'clause': c.name, 'tags': c.tags})
-            rec['clauses'].append({'kind': 'ensures', 'name': c.name, 'tags': c.tags, 'text': ' '.join(c.text.split())})
-    if card.mode == 'assumed' or assumed_here:
-        out.add('{ unimplemented!() }', {'fn': fid, 'part': 'body'})
-        rec['out_sha256'] = None
-        rec['in_this_shard'] = False
-        info['functions'].append(rec)
-        return
-    rec['in_this_shard'] = True
+def splice_loops_and_hints(card, fid, body):
     # loop contracts
     heads = loop_heads(body)
     for n in card.loops:
@@ -447,6 +382,104 @@ def emit_fn(card, repo, out, info, twin=False, assumed_here=False):
                 break
         if not done:
             raise AnchorLost('%s: hint %s anchor %r lost' % (fid, hname, anchor))
+
+    return hinted
+
+
+def emit_fn(card, repo, out, info, twin=False, assumed_here=False):
+    src, clean = load(repo, card.file)
+    parts = card.path.split('::')
+    tname = parts[0] if len(parts) == 2 else None
+    fname = parts[-1]
+    nth = int(card.opts.get('nth', 0))
+    if 'implre' in card.opts:
+        s0, b0, e0 = find_impl(clean, card.opts['implre'].strip('/'))
+        sub = clean[b0:e0 + 1]
+        m = re.search(R'(?:pub(?:\([a-z:_ ]+\))?\s+)?(?:const\s+)?(?:async\s+)?fn\s+%s\b' % re.escape(fname), sub)
+        if not m:
+            raise AnchorLost('fn %s not in impl %s' % (fname, card.opts['implre']))
+        start = b0 + m.start()
+        from rustscan import find_block_start
+        bopen = find_block_start(clean, b0 + m.end())
+        bclose = match_close(clean, bopen)
+    else:
+        try:
+            start, bopen, bclose = find_fn(clean, tname, fname, nth)
+        except AnchorLost:
+            if card.mode == 'assumed' or 'required' in card.opts:
+                raise
+            # the function no longer exists (removed / inlined by a refactoring): nothing to extract.
+            # Callers that still name it will not compile (=> undecided); otherwise its former callers
+            # carry the property through their own contracts.
+            info.setdefault('missing', []).append({'id': card.id, 'path': card.path, 'file': card.file, 'tags': card.tags})
+            return
+    raw_item = src[start:bclose + 1]
+    sig = strip_attrs_and_vis(clean[start:bopen]).strip()
+    sig = re.sub(r'^const\s+', '', sig)
+    body = clean[bopen:bclose + 1]
+    R.reset_counters()
+    log = []
+    sig, body = apply_rules(card, sig, body, log)
+    body = squeeze(body)
+    if card.opts.get('awaitinv'):
+        body, n_aw = insert_await_asserts(body, card.opts['awaitinv'], card.opts.get('awaitskip'))
+        log.append({'rule': 'X12', 'match': '%d await points: assert(%s)' % (n_aw, card.opts['awaitinv'])})
+    if card.opts.get('rename'):
+        sig = re.sub(r'\bfn\s+%s\b' % re.escape(fname), 'fn ' + card.opts['rename'], sig, count=1)
+        log.append({'rule': 'PROBE', 'match': 'emitted as %s (uncalled copy carrying a property-level clause)' % card.opts['rename']})
+    if card.ret:
+        sig, ok = name_return(sig, card.ret)
+        if not ok:
+            raise GenError('%s: ret= given but fn has no return type' % card.id)
+    rec = {
+        'id': card.id, 'file': card.file, 'path': card.path, 'mode': card.mode,
+        'src_line_start': line_of(src, start), 'src_line_end': line_of(src, bclose),
+        'src_sha256': hashlib.sha256(raw_item.encode()).hexdigest(),
+        'rules_applied': log, 'tags': card.tags,
+        'clauses': [], 'loops': sorted(card.loops), 'hints': [h[0] for h in card.hints],
+    }
+    fid = card.id
+    # loop contracts and hints are keyed to the structure of the body.  If the body was restructured
+    # so that they no longer line up, the function is emitted in "contract-only" (degraded) mode:
+    # signature contract kept, loop contracts and hints dropped; check decides it with the paired Kani
+    # harness or reports it undecided (never a violation on a failed proof alone).
+    degraded = None
+    try:
+        hinted = splice_loops_and_hints(card, fid, body)
+    except AnchorLost as ex:
+        degraded = str(ex)
+        hinted = [['body', body]]
+        card_hints_saved = card.hints
+        card.hints = []
+    rec['degraded'] = degraded
+    if degraded:
+        DEGRADED_IDS[fid] = degraded
+    if card.mode == 'assumed' or assumed_here:
+        out.add('#[verifier::external_body]', {'fn': fid, 'part': 'attr'})
+    if not twin and 'nospinoff' not in card.opts:
+        out.add('#[verifier::spinoff_prover]', {'fn': fid, 'part': 'attr'})
+    if 'nodecreases' in card.opts or DEGRADED_IDS.get(fid):
+        out.add('#[verifier::exec_allows_no_decreases_clause]', {'fn': fid, 'part': 'attr'})
+    if card.opts.get('rlimit') and not twin:
+        out.add('#[verifier::rlimit(%s)]' % card.opts['rlimit'], {'fn': fid, 'part': 'attr'})
+    out.add(sig, {'fn': fid, 'part': 'sig'})
+    if card.requires:
+        out.add('    requires', {'fn': fid, 'part': 'sig'})
+        for c in card.requires:
+            out.add(c.text.rstrip().rstrip(',') + ',', {'fn': fid, 'part': 'requires', 'clause': c.name, 'tags': c.tags})
+            rec['clauses'].append({'kind': 'requires', 'name': c.name, 'tags': c.tags, 'text': ' '.join(c.text.split())})
+    if card.ensures:
+        out.add('    ensures', {'fn': fid, 'part': 'sig'})
+        for c in card.ensures:
+            out.add(c.text.rstrip().rstrip(',') + ',', {'fn': fid, 'part': 'ensures', 'clause': c.name, 'tags': c.tags})
+            rec['clauses'].append({'kind': 'ensures', 'name': c.name, 'tags': c.tags, 'text': ' '.join(c.text.split())})
+    if card.mode == 'assumed' or assumed_here:
+        out.add('{ unimplemented!() }', {'fn': fid, 'part': 'body'})
+        rec['out_sha256'] = None
+        rec['in_this_shard'] = False
+        info['functions'].append(rec)
+        return
+    rec['in_this_shard'] = True
     hint_text = {h[0]: h[4] for h in card.hints}
     first_body_line = len(out.lines)
     if card.opts.get('reveal'):
